@@ -100,3 +100,10 @@ func ptrOf(x any) unsafe.Pointer { return unsafe.Pointer(reflect.ValueOf(x).Poin
 
 // tk folds a token counter into 1..120 so that it is representable in every element type.
 func tk(x int64) int64 { return 1 + (x-1)%120 }
+
+func max0(x int) int {
+	if x < 0 {
+		return 0
+	}
+	return x
+}
